@@ -489,6 +489,28 @@ def run_case(case):
             cw = d / "some_cwd"
             cw.mkdir()
             det["second_exc"], det["second"] = do_compile(src2 / case["root"], d / "o2" / "x", ap, core, cwd=str(cw), validate_alignment=val)
+            # the same closure reached through symlinks: a link to the definition directory at two different depths
+            # (relative invocation from the project directory; absolute invocation from elsewhere), and a link to the
+            # root FILE alone.  The real directory is src2 (compiled above from yet another cwd).
+            det["links"] = {}
+            try:
+                pa = d / "proj_a"
+                pa.mkdir()
+                os.symlink(src2, pa / "defs", target_is_directory=True)
+                e1, o1 = do_compile(Path("defs") / case["root"], d / "o_link_a", ap, core, cwd=str(pa), validate_alignment=val)
+                det["links"]["dir-link depth 1, relative path, cwd = project dir"] = dict(exc=e1, outs=o1)
+                pb = d / "proj_b" / "deps" / "third_party"
+                pb.mkdir(parents=True)
+                os.symlink(src2, pb / "defs", target_is_directory=True)
+                e2, o2 = do_compile(pb / "defs" / case["root"], d / "o_link_b", ap, core, cwd=str(cw), validate_alignment=val)
+                det["links"]["dir-link depth 3, absolute path, other cwd"] = dict(exc=e2, outs=o2)
+                pf = d / "filelink" / "sub"
+                pf.mkdir(parents=True)
+                os.symlink(src2 / case["root"], pf / Path(case["root"]).name)
+                e3, o3 = do_compile(pf / Path(case["root"]).name, d / "o_link_f", ap, core, cwd=str(pf), validate_alignment=val)
+                det["file_link"] = dict(exc=e3, outs=o3)
+            except OSError as e:
+                det["links_error"] = "%s: %s" % (type(e).__name__, e)
             src3 = d / "s3"
             write_files(src3, case["files"])
             o3 = d / "o3"
